@@ -123,7 +123,7 @@ def sweep_case(args):
     idx, jl = args
     asm = progs.get_asm()
     lines = [progs.Ln.from_json(j) for j in jl]
-    r = evaluate(asm, lines, idx, seeds=SEEDS[:3])
+    r = evaluate(asm, lines, idx, seeds=[SEEDS[0], SEEDS[3], SEEDS[4]])      # one degenerate file, two generic ones
     r['kinds'] = ['sweep']
     if r['status'][False] == 'ok' and r['status'][True] != 'ok':
         # the -c build of the whole program was refused: find every eligible line that is not
